@@ -32,7 +32,7 @@ PARTS = {
     "BYMONTHDAY": (1, -1, (1, 15, -1)),
     "BYYEARDAY": (1, -1, (100, -100)),
     "BYWEEKNO": (1, -1, (20, 53)),
-    "BYMONTH": (1, (6, 12), "5L"),
+    "BYMONTH": (1, (6, 12), "5L", (5, "5L"), ("7L", 7)),
     "BYSETPOS": (1, -1, (1, -1)),
     "WKST": ("MO", "SU"),
     "RSCALE": ("GREGORIAN", "HEBREW"),
